@@ -1,6 +1,4 @@
 """C20 Isolated activities follow the documented formulas."""
-import math
-
 from hypothesis import strategies as st
 
 from .. import core, model, platgen
@@ -20,74 +18,87 @@ def flops():
     return st.one_of(st.sampled_from([0.0, 1.0, 1e6, 1e9]), platgen.pow2(-10, 50), platgen.loguniform(1e-3, 1e15))
 
 
-def starts():
-    """date at which the activity starts (the actor sleeps until then): 0, exact small values, arbitrary"""
+def gaps():
+    """idle time before an activity (so that activities start at all kinds of dates)"""
     return st.one_of(st.just(0.0), st.just(0.0), st.integers(1, 64).map(lambda k: k / 8), st.sampled_from([0.1, 1e-3, 1234.5678, 1e6 + 0.3]),
                      st.floats(0, 1e4, allow_nan=False))
 
 
+def durations():
+    return st.one_of(st.sampled_from([0.0, 1e-12, 1e-9, 1.5e-9, 1.0, 0.1]), platgen.pow2(-20, 20), platgen.loguniform(1e-9, 1e9))
+
+
 @st.composite
 def cases(draw):
-    kind = draw(st.sampled_from(["comm", "comm", "comm", "comm", "exec", "sleep", "io", "ptask"]))
+    """A platform, a configuration, and 1-6 activities executed ONE AFTER THE OTHER (each one is alone on the platform while it runs)."""
     dyadic = draw(st.integers(0, 9)) == 0
-    case = {"kind": kind, "t0": draw(starts())}
-    if draw(st.integers(0, 7)) == 0 and kind != "ptask":
-        case["optim"] = draw(st.sampled_from([["cpu/optim:Full"], ["network/optim:Full"], ["cpu/optim:Full", "network/optim:Full"],
-                                              ["cpu/maxmin-selective-update:yes", "network/maxmin-selective-update:yes"]]))
-    if kind == "comm":
-        plat = draw(platgen.platforms(n_hosts=(2, 3), n_disks=(0, 0), max_pstates=1, cores=(1, 2), dyadic=dyadic))
-        names = [h["name"] for h in plat["hosts"]]
-        src = draw(st.sampled_from(names))
-        dst = draw(st.sampled_from([n for n in names if n != src] * 6 + [src]))
-        case.update(platform=plat, src=src, dst=dst, size=draw(sizes()), model=draw(st.sampled_from(["raw", "CM02", "LV08", "LV08", "SMPI"])),
-                    t1=draw(starts()))
+    l07 = draw(st.integers(0, 5)) == 0
+    plat = draw(platgen.platforms(n_hosts=(2, 5) if l07 else (1, 4), n_disks=(0, 2), dyadic=dyadic, max_pool=10))
+    p = Plat(plat)
+    names = [h["name"] for h in plat["hosts"]]
+    case = {"platform": plat}
+    if l07:
+        case["l07"] = True
+        kinds = ["ptask", "ptask", "ptask", "exec", "sleep", "pstate"]
+    else:
+        kinds = ["comm", "comm", "comm", "comm", "exec", "exec", "sleep", "pstate"]
+        case["model"] = draw(st.sampled_from(["raw", "CM02", "LV08", "SMPI"]))
         ct = draw(st.sampled_from([None, None, True, False]))
         if ct is not None:
             case["crosstraffic"] = ct
+        if draw(st.integers(0, 7)) == 0:
+            case["optim"] = draw(st.sampled_from([["cpu/optim:Full"], ["network/optim:Full"], ["cpu/optim:Full", "network/optim:Full"],
+                                                  ["cpu/maxmin-selective-update:yes", "network/maxmin-selective-update:yes"]]))
+    if p.disks:
+        kinds += ["io", "io"]
+    acts = []
+    for _ in range(draw(st.integers(1, 6))):
+        kind = draw(st.sampled_from(kinds))
+        a = {"kind": kind, "gap": draw(gaps())}
+        if kind == "comm":
+            a["src"] = draw(st.sampled_from(names))
+            others = [n for n in names if n != a["src"]]
+            a["dst"] = draw(st.sampled_from(others * 6 + [a["src"]]))
+            a["size"] = draw(sizes())
+        elif kind == "exec":
+            a["host"] = draw(st.sampled_from(names))
+            a["flops"] = draw(flops())
+            if p.n_pstates(a["host"]) > 1 and draw(st.booleans()):
+                a["pstate"] = draw(st.integers(0, p.n_pstates(a["host"]) - 1))       # set just before the execution starts
+            if not l07 and p.cores(a["host"]) >= 2 and draw(st.integers(0, 2)) == 0:
+                # (multi-thread executions are not implemented by the L07 host model: HostL07Model::execute_thread returns nullptr)
+                a["threads"] = draw(st.integers(2, p.cores(a["host"])))
+        elif kind == "sleep":
+            a["duration"] = draw(durations())
+        elif kind == "pstate":
+            a["host"] = draw(st.sampled_from(names))
+            a["pstate"] = draw(st.integers(0, p.n_pstates(a["host"]) - 1))
+        elif kind == "io":
+            a["disk"] = draw(st.sampled_from(sorted(p.disks)))
+            a["size"] = draw(sizes())
+            a["op"] = draw(st.sampled_from(["read", "write"]))
+        else:
+            k = draw(st.integers(1, len(names)))
+            a["hosts"] = list(draw(st.permutations(names))[:k])
+            a["flops"] = [draw(st.one_of(st.just(0.0), flops(), flops(), flops())) for _ in range(k)]
+        acts.append(a)
+    case["acts"] = acts
+    if not l07 and any(a["kind"] == "comm" and a["src"] == a["dst"] for a in acts) and draw(st.booleans()):
+        case["loopback"] = [draw(platgen.bandwidths(dyadic)), draw(platgen.latencies(dyadic))]
+    if not l07:
         g = draw(st.sampled_from(["default", "default", "zero", "small", "tuned"]))
+        comms = [a for a in acts if a["kind"] == "comm" and a["src"] != a["dst"]]
         if g == "zero":
             case["gamma"] = 0.0
         elif g == "small":
             case["gamma"] = draw(platgen.loguniform(1e2, 1e8))
-        elif g == "tuned" and src != dst:
-            # window close to the physical bandwidth of the route: both sides of the min() get exercised
-            p = Plat(plat)
-            lat = p.latency(src, dst)
-            bw = min(p.links[l]["bw"] for l in p.route(src, dst))
+        elif g == "tuned" and comms:
+            # window close to the physical bandwidth of a route in use: both sides of the min() get exercised
+            c = comms[0]
+            lat = p.latency(c["src"], c["dst"])
+            bw = min(p.links[l]["bw"] for l in p.route(c["src"], c["dst"]))
             if lat > 0:
                 case["gamma"] = float("%.6g" % (2 * lat * bw * draw(st.sampled_from([0.5, 0.9, 0.99, 1.01, 1.06, 1.2, 2.0]))))
-    elif kind == "exec":
-        plat = draw(platgen.platforms(n_hosts=(1, 2), n_disks=(0, 0), dyadic=dyadic, route_len=(1, 2)))
-        names = [h["name"] for h in plat["hosts"]]
-        case.update(platform=plat, actor_host=draw(st.sampled_from(names)), host=draw(st.sampled_from(names)), flops=draw(flops()))
-        ncores = Plat(plat).cores(case["host"])
-        nps = Plat(plat).n_pstates(case["host"])
-        if nps > 1:
-            case["pstate"] = draw(st.integers(0, nps - 1))
-        if draw(st.integers(0, 3)) == 0:
-            case["threads"] = draw(st.integers(2, ncores)) if ncores >= 2 else 1
-        if draw(st.integers(0, 9)) == 0 and case.get("threads", 1) == 1:
-            # multi-thread executions are not implemented by the L07 host model (HostL07Model::execute_thread returns nullptr): out of the domain
-            case["l07"] = True
-    elif kind == "sleep":
-        plat = draw(platgen.platforms(n_hosts=(1, 1), n_disks=(0, 0), dyadic=dyadic))
-        case.update(platform=plat, duration=draw(st.one_of(st.sampled_from([0.0, 1e-12, 1e-9, 1.5e-9, 1.0, 0.1]), platgen.pow2(-20, 20),
-                                                           platgen.loguniform(1e-9, 1e9))))
-        if draw(st.integers(0, 9)) == 0:
-            case["l07"] = True
-    elif kind == "io":
-        plat = draw(platgen.platforms(n_hosts=(1, 2), n_disks=(1, 2), dyadic=dyadic, route_len=(1, 2)))
-        names = [h["name"] for h in plat["hosts"]]
-        disks = sorted(Plat(plat).disks)
-        case.update(platform=plat, actor_host=draw(st.sampled_from(names)), disk=draw(st.sampled_from(disks)), size=draw(sizes()),
-                    op=draw(st.sampled_from(["read", "write"])))
-    else:
-        plat = draw(platgen.platforms(n_hosts=(1, 5), n_disks=(0, 0), dyadic=dyadic, route_len=(1, 2)))
-        names = [h["name"] for h in plat["hosts"]]
-        k = draw(st.integers(1, len(names)))
-        hosts = draw(st.permutations(names))[:k]
-        fl = [draw(st.one_of(st.just(0.0), flops())) for _ in hosts]
-        case.update(platform=plat, actor_host=draw(st.sampled_from(names)), hosts=list(hosts), flops=fl)
     return case
 
 
@@ -96,194 +107,223 @@ class C20(core.Prop):
     drivers = ["s4u_model"]
     sizes = {"quick": 1200, "thorough": 40000}
     max_workers = 6
-    technique = ("property-based testing (Hypothesis): one activity alone on a generated platform, its duration compared with the documented "
-                 "closed form computed independently from the platform description (reference model oracle)")
-    rule = ("One activity alone on a generated flat platform (vf/platgen.py: speeds 1e3..1e12 with pstates, links 1e3..1e11 B/s with latencies "
-            "0..10 s, SHARED/FATPIPE/SPLITDUPLEX, routes of 1-8 links, symmetric or with an independent reverse route), started at date 0 or later: "
-            "exec (W in 0..1e15, any pstate, remote host, k<=cores threads), sleep, I/O read/write (0..1e12 B), pure-computation parallel task on 1-5 "
-            "hosts under host/model:ptask_L07, communication (0..1e12 B incl. every SMPI interval boundary +-1; loopback) x network/model in "
-            "{raw, CM02, LV08, SMPI} x crosstraffic {default, on, off} x TCP-gamma {default, 0, small, tuned to the route's bandwidth}; 1 in 8 cases also "
-            "switches cpu|network/optim to Full. Oracle: duration (finish - start of the activity) = the closed form of Models.rst / "
-            "Configuring_SimGrid.rst evaluated in Python from the platform description, within 1e-9 relative + precision/timing. "
+    technique = ("property-based testing (Hypothesis): activities executed one at a time on a generated platform, each duration compared with the "
+                 "documented closed form computed independently from the platform description (reference model oracle)")
+    rule = ("A generated flat platform (vf/platgen.py: 1-4 hosts, speeds 1e3..1e12 with pstates, links 1e3..1e11 B/s with latencies 0..10 s, "
+            "SHARED/FATPIPE/SPLITDUPLEX, routes of 1-8 links, symmetric or with an independent reverse route, disks) and 1-6 activities executed one "
+            "after the other, each alone while it runs, after idle gaps: exec (W in 0..1e15, any pstate, any host, k<=cores threads), sleep, I/O "
+            "read/write (0..1e12 B), set_pstate, communication (0..1e12 B incl. every SMPI interval boundary +-1; implicit loopback link with default or generated loopback-bw/lat) x network/model in "
+            "{raw, CM02, LV08, SMPI} x crosstraffic {default, on, off} x TCP-gamma {default, 0, small, tuned to a route's bandwidth}, 1 in 8 cases with "
+            "cpu|network/optim Full; or, under host/model:ptask_L07, pure-computation parallel tasks on 1-4 hosts, execs and sleeps. "
+            "Oracle: duration (finish - start) of every activity = the closed form of Models.rst / Configuring_SimGrid.rst evaluated in Python from "
+            "the platform description, within 1e-9 relative + precision/timing. "
             "Non-trivial: a communication that is window-limited, or whose rate is set by cross-traffic (1.05 on a link shared with the reverse route, "
-            "or the 0.05 flow saturating a reverse-only link), or of an SMPI boundary size; a multi-thread / remote / pstate>0 exec; a ptask whose "
-            "slowest part is not the first one; an I/O whose read and write rates differ.")
+            "or the 0.05 flow saturating a reverse-only link), or of an SMPI boundary size; a multi-thread or pstate>0 exec; a ptask whose "
+            "slowest part is not the first one; an I/O on a disk whose read and write rates differ.")
     assumptions = ["tolerance: |observed - documented| <= 1e-9*documented + precision/timing (1e-9 s) + 8 ulp of the dates involved",
                    "where the documentation is ambiguous both readings are accepted and the class is counted: (a) binding TCP window together with a "
                    "bandwidth factor != 1 (statement: min(bw*factor, gamma/2lat); Models.rst defines the window for CM02 only; implementation: "
                    "factor*min(bw, gamma/2lat)); (b) a size that IS a boundary of an interval-based factor (Configuring_SimGrid.rst describes the "
                    "intervals once half-open and once closed)",
                    "a FATPIPE link is not shared, so the 0.05 cross-traffic flow does not slow the data flow down on it",
-                   "threads: Exec::set_thread_count(k) with k <= cores: every thread computes W at speed S"]
+                   "threads: Exec::set_thread_count(k) with k <= cores: every thread computes W at speed S",
+                   "multi-thread executions under host/model:ptask_L07 are outside the domain (not implemented by that model: null action)"]
 
     def strategy(self, tier):
         return cases()
 
     # -------------------------------------------------------------------------------------------- scenario
     def scenario(self, case):
-        kind = case["kind"]
+        """-> (scenario, plan): plan[i] tells where the observations of activity i are found in the log"""
         cfg = list(case.get("optim", []))
-        plat = case["platform"]
-        t0 = case["t0"]
-        pre = [["sleep", t0]] if t0 > 0 else []
-        sc = {"platform": plat, "quiet": ["actor", "onoff"]}
-        if case.get("l07") or kind == "ptask":
+        if case.get("l07"):
             cfg.append("host/model:ptask_L07")
-        if kind == "comm":
+        else:
             cfg.append("network/model:" + case["model"])
             if "crosstraffic" in case:
                 cfg.append("network/crosstraffic:%d" % (1 if case["crosstraffic"] else 0))
             if "gamma" in case:
                 cfg.append("network/TCP-gamma:%r" % case["gamma"])
-            t1 = case["t1"]
-            sc["objects"] = {"mailbox": 1}
-            sc["actors"] = [{"name": "snd", "host": case["src"], "ops": pre + [["put", 0, case["size"]]]},
-                            {"name": "rcv", "host": case["dst"], "ops": ([["sleep", t1]] if t1 > 0 else []) + [["get", 0]]}]
-        elif kind == "exec":
-            opts = {"host": case["host"]}
-            if case.get("threads", 1) > 1:
-                opts["threads"] = case["threads"]
-            if "pstate" in case:
-                pre = [["set_pstate", case["host"], case["pstate"]]] + pre
-            sc["actors"] = [{"name": "a", "host": case["actor_host"], "ops": pre + [["exec", case["flops"], opts]]}]
-        elif kind == "sleep":
-            sc["actors"] = [{"name": "a", "host": "h0", "ops": pre + [["sleep", case["duration"]]]}]
-        elif kind == "io":
-            sc["actors"] = [{"name": "a", "host": case["actor_host"], "ops": pre + [["io", case["disk"], case["size"], case["op"]]]}]
-        else:
-            k = len(case["hosts"])
-            sc["actors"] = [{"name": "a", "host": case["actor_host"],
-                             "ops": pre + [["exec", case["hosts"], {"flops": case["flops"], "bytes": [0.0] * (k * k)}]]}]
-        sc["cfg"] = cfg
-        return sc
+            if "loopback" in case:
+                cfg += ["network/loopback-bw:%r" % case["loopback"][0], "network/loopback-lat:%r" % case["loopback"][1]]
+        ops, templates, plan = [], [], []
+        nspawn = 0
+        nmb = 0
+        for a in case["acts"]:
+            if a["gap"] > 0:
+                ops.append(["sleep", a["gap"]])
+            kind = a["kind"]
+            if kind == "comm":
+                templates.append({"ops": [["put", nmb, a["size"]]]})
+                templates.append({"ops": [["get", nmb]]})
+                snd, rcv = "m.%d" % nspawn, "m.%d" % (nspawn + 1)
+                ops += [["spawn", len(templates) - 2, a["src"]], ["spawn", len(templates) - 1, a["dst"]], ["join", snd], ["join", rcv]]
+                plan.append({"comm": [len(ops) - 4, len(ops) - 1]})      # the completion record lies between these two operations in the log
+                nspawn += 2
+                nmb += 1
+            elif kind == "exec":
+                opts = {"host": a["host"]}
+                if "pstate" in a:
+                    ops.append(["set_pstate", a["host"], a["pstate"]])
+                if a.get("threads", 1) > 1:
+                    opts["threads"] = a["threads"]
+                plan.append({"op": len(ops)})
+                ops.append(["exec", a["flops"], opts])
+            elif kind == "sleep":
+                plan.append({"op": len(ops)})
+                ops.append(["sleep", a["duration"]])
+            elif kind == "pstate":
+                plan.append({"op": len(ops)})
+                ops.append(["set_pstate", a["host"], a["pstate"]])
+            elif kind == "io":
+                plan.append({"op": len(ops), "io": "m#%d" % len(ops)})
+                ops.append(["io", a["disk"], a["size"], a["op"]])
+            else:
+                k = len(a["hosts"])
+                plan.append({"op": len(ops)})
+                ops.append(["exec", a["hosts"], {"flops": a["flops"], "bytes": [0.0] * (k * k)}])
+        sc = {"cfg": cfg, "platform": case["platform"], "quiet": ["actor", "onoff", "adv"], "objects": {"mailbox": nmb},
+              "actors": [{"name": "m", "host": case["platform"]["hosts"][0]["name"], "ops": ops}], "templates": templates}
+        return sc, plan
 
     # -------------------------------------------------------------------------------------------- oracle
     def check(self, case):
         oc = core.Outcome()
-        kind = case["kind"]
-        log = model.run(self.scenario(case), cpu=20, wall=240)
+        sc, plan = self.scenario(case)
+        log = model.run(sc, cpu=20, wall=240)
         if log.wall_exceeded:
             raise core.Inconclusive()
         if not log.done:
-            oc.bad(model.crash_sig(log) + ":" + kind, "s4u_model did not finish: " + log.crash_text())
+            oc.bad(model.crash_sig(log), "s4u_model did not finish: " + log.crash_text())
             return oc
         plat = Plat(case["platform"])
-        labels = [kind]
-        nontrivial = False
         T = model.T
+        labels = set()
+        nontrivial = False
         if case.get("optim"):
-            labels.append("optim-nondefault")
-        if case.get("l07"):
-            labels.append("l07")
-        if case["t0"] > 0:
-            labels.append("start>0")
-        expected = None        # list of admissible durations
-        what = ""
-        if kind == "sleep":
-            ops = [o for o in log.ops() if o["op"][0] == "sleep"]
-            o = ops[-1]
-            if o["t_ret"] is None or "exc" in o:
-                oc.bad("sleep-not-returned", "sleep(%r) did not return normally: %r" % (case["duration"], o))
-                return oc
-            obs, date = o["t_ret"] - o["t_req"], o["t_ret"]
-            expected = [case["duration"]]
-            what = "sleep of %r s" % case["duration"]
-            nontrivial = case["duration"] > 1e-8
-        elif kind in ("exec", "ptask"):
-            o = [o for o in log.ops() if o["op"][0] == "exec"][-1]
-            if o["t_ret"] is None or "exc" in o:
-                oc.bad("exec-not-returned", "exec did not return normally: %r" % o)
-                return oc
-            start, finish = T(o["r"]["start"]), T(o["r"]["finish"])
-            obs, date = finish - start, finish
-            if abs(finish - o["t_ret"]) > 0 or abs(start - o["t_req"]) > 0:
-                oc.bad("exec-dates-inconsistent", "get_start_time/get_finish_time (%r, %r) differ from the dates at which the blocking call was "
-                       "issued and returned (%r, %r)" % (start, finish, o["t_req"], o["t_ret"]))
-            if kind == "exec":
-                s = plat.speed(case["host"], case.get("pstate", 0))
-                expected = [case["flops"] / s]
-                what = "exec of %r flops on %s (speed %r, %d cores, %d thread(s))" % (case["flops"], case["host"], s, plat.cores(case["host"]),
-                                                                                       case.get("threads", 1))
-                if case.get("threads", 1) > 1:
-                    labels.append("threads")
-                if case["host"] != case["actor_host"]:
-                    labels.append("remote")
-                if case.get("pstate", 0) > 0:
-                    labels.append("pstate>0")
-                nontrivial = any(l in labels for l in ("threads", "remote", "pstate>0")) and expected[0] > 1e-8
+            labels.add("optim-nondefault")
+        labels.add("l07" if case.get("l07") else case["model"])
+        labels.add("acts-%d" % min(len(case["acts"]), 4))
+        ops = {o["i"]: o for o in log.ops() if o["a"] == "m"}
+        ends = {}
+        for l in log.of("act_end"):
+            ends.setdefault((l["type"], l["name"]), []).append(l)
+        comm_ends = [l for l in log.of("act_end") if l["type"] == "comm"]
+        pstate = {h: 0 for h in plat.hosts}
+        observed = []
+        for idx, (a, pl) in enumerate(zip(case["acts"], plan)):
+            kind = a["kind"]
+            where = "activity #%d (%s)" % (idx, kind)
+            o = ops.get(pl.get("op")) if "op" in pl else None
+            if "op" in pl and (o is None or o["t_ret"] is None or "exc" in o):
+                oc.bad("activity-not-returned:" + kind, "%s did not return normally: %r" % (where, o))
+                break
+            expected, obs, date, what = None, None, 0.0, ""
+            if kind == "pstate":
+                pstate[a["host"]] = a["pstate"]
+                continue
+            labels.add(kind)
+            if kind == "sleep":
+                obs, date = o["t_ret"] - o["t_req"], o["t_ret"]
+                expected = [a["duration"]]
+                what = "sleep of %r s" % a["duration"]
+            elif kind in ("exec", "ptask"):
+                start, finish = T(o["r"]["start"]), T(o["r"]["finish"])
+                obs, date = finish - start, finish
+                if kind == "exec":
+                    pstate[a["host"]] = a.get("pstate", pstate[a["host"]])
+                    s = plat.speed(a["host"], pstate[a["host"]])
+                    expected = [a["flops"] / s]
+                    what = "exec of %r flops on %s (pstate %d: speed %r, %d cores, %d thread(s))" % (
+                        a["flops"], a["host"], pstate[a["host"]], s, plat.cores(a["host"]), a.get("threads", 1))
+                    if a.get("threads", 1) > 1:
+                        labels.add("threads")
+                    if pstate[a["host"]] > 0:
+                        labels.add("pstate>0")
+                    if expected[0] > 1e-8 and (a.get("threads", 1) > 1 or pstate[a["host"]] > 0):
+                        nontrivial = True
+                else:
+                    sp = [plat.speed(h, pstate[h]) for h in a["hosts"]]
+                    ratios = [f / s for f, s in zip(a["flops"], sp)]
+                    expected = [max(ratios)]
+                    what = "ptask of %r flops on %r (speeds %r)" % (a["flops"], a["hosts"], sp)
+                    labels.add("ptask-%d-hosts" % min(len(ratios), 3))
+                    if max(ratios) == 0:
+                        labels.add("ptask-empty")
+                    if len(ratios) > 1 and ratios.index(max(ratios)) > 0 and max(ratios) > 1e-8:
+                        nontrivial = True
+                        labels.add("ptask-slowest-not-first")
+            elif kind == "io":
+                e = ends.get(("io", pl["io"]), [])
+                if len(e) != 1:
+                    oc.bad("io-not-completed", "%s: expected one completion record, got %r" % (where, e))
+                    break
+                obs, date = T(e[0]["finish"]) - T(e[0]["start"]), T(e[0]["finish"])
+                d = plat.disks[a["disk"]]
+                rate = d["read_bw"] if a["op"] == "read" else d["write_bw"]
+                expected = [a["size"] / rate]
+                what = "%s of %d bytes on disk %s (read %r B/s, write %r B/s)" % (a["op"], a["size"], a["disk"], d["read_bw"], d["write_bw"])
+                labels.add("io-" + a["op"])
+                if d["read_bw"] != d["write_bw"] and expected[0] > 1e-8:
+                    nontrivial = True
+                if o["r"].get("performed") != a["size"]:
+                    oc.bad("io-performed-amount", "%s: get_performed_ioops() = %r" % (what, o["r"].get("performed")))
             else:
-                ratios = [f / plat.speed(h) for f, h in zip(case["flops"], case["hosts"])]
-                expected = [max(ratios)]
-                what = "ptask of %r flops on %r (speeds %r)" % (case["flops"], case["hosts"], [plat.speed(h) for h in case["hosts"]])
-                labels.append("ptask-%d-hosts" % min(len(ratios), 3))
-                if max(ratios) == 0:
-                    labels.append("ptask-empty")
-                nontrivial = len(ratios) > 1 and ratios.index(max(ratios)) > 0 and max(ratios) > 1e-8
-        elif kind == "io":
-            ends = [l for l in log.of("act_end") if l["type"] == "io"]
-            if len(ends) != 1:
-                oc.bad("io-not-completed", "expected one completed I/O, got %r" % ends)
-                return oc
-            obs, date = T(ends[0]["finish"]) - T(ends[0]["start"]), T(ends[0]["finish"])
-            d = plat.disks[case["disk"]]
-            rate = d["read_bw"] if case["op"] == "read" else d["write_bw"]
-            expected = [case["size"] / rate]
-            what = "%s of %d bytes on disk %s (read %r B/s, write %r B/s)" % (case["op"], case["size"], case["disk"], d["read_bw"], d["write_bw"])
-            labels.append("io-" + case["op"])
-            nontrivial = d["read_bw"] != d["write_bw"] and expected[0] > 1e-8
-            o = [o for o in log.ops() if o["op"][0] == "io"][-1]
-            if "r" in o and o["r"].get("performed") != case["size"]:
-                oc.bad("io-performed-amount", "%s: get_performed_ioops() = %r" % (what, o["r"].get("performed")))
-        else:
-            ends = [l for l in log.of("act_end") if l["type"] == "comm"]
-            if len(ends) < 1:
-                oc.bad("comm-not-completed", "no completed communication")
-                return oc
-            durs = set((T(e["start"]), T(e["finish"])) for e in ends)
-            if len(durs) != 1:
-                oc.bad("comm-dates-inconsistent", "sender and receiver sides report different dates: %r" % sorted(durs))
-            start, finish = sorted(durs)[0]
-            obs, date = finish - start, finish
-            info = model.comm_time(plat, case["src"], case["dst"], case["size"], model=case["model"], crosstraffic=case.get("crosstraffic"),
-                                   gamma=case.get("gamma"))
-            expected = info["times"]
-            what = ("%d bytes %s->%s, %s, crosstraffic=%r, gamma=%r; route latency %r, bottleneck %r B/s (%s), window %r B/s"
-                    % (case["size"], case["src"], case["dst"], case["model"], case.get("crosstraffic"), case.get("gamma"), info["lat"], info["phys"],
-                       info["binding"], info["window"]))
-            labels.append(case["model"])
-            labels.append("binding:" + info["binding"])
-            if info["gamma_limited"]:
-                labels.append("gamma-limited")
-            if info["gamma_ambiguous"]:
-                labels.append("ambiguous:gamma-with-bw-factor")
-            if info["factor_boundary"]:
-                labels.append("ambiguous:factor-boundary-size")
-            if case["size"] == 0:
-                labels.append("size-0")
-            if case["src"] != case["dst"]:
-                n = len(plat.route(case["src"], case["dst"]))
-                labels.append("route-len-%s" % ("1" if n == 1 else "2-3" if n <= 3 else "4-8"))
-                pols = set(plat.links[l]["policy"] for l in plat.route(case["src"], case["dst"]))
-                if "FATPIPE" in pols:
-                    labels.append("route-has-fatpipe")
-                if any(l.endswith("_UP") or l.endswith("_DOWN") for l in plat.route(case["src"], case["dst"])):
-                    labels.append("route-has-splitduplex")
-                if sorted(plat.route(case["src"], case["dst"])) != sorted(plat.route(case["dst"], case["src"])):
-                    labels.append("reverse-route-differs")
-            nontrivial = (info["gamma_limited"] or info["crosstraffic_binding"] or info["factor_boundary"]) and min(expected) > 1e-8
-            if info["crosstraffic_binding"]:
-                labels.append("crosstraffic-binding")
-        if min(expected) <= 1e-8:
-            labels.append("sub-precision")
-        if not any(model.close(obs, e, date=date) for e in expected):
-            sig = "duration-differs:" + kind
-            if kind == "comm":
-                sig += ":" + case["model"]
-            oc.bad(sig, "%s: observed duration %r, documented %r (relative difference %.3g)"
-                   % (what, obs, expected, min(abs(obs - e) / max(e, 1e-300) for e in expected)))
-        oc.labels = sorted(set(labels))
+                first, last = ops.get(pl["comm"][0]), ops.get(pl["comm"][1])
+                if first is None or last is None or last["n_ret"] is None:
+                    oc.bad("activity-not-returned:comm", "%s: the sender or the receiver did not terminate: %r" % (where, last))
+                    break
+                # (the name given to the s4u::Comm is not the name of the completion record: records are attributed by their position in the log)
+                e = [l for l in comm_ends if first["n_req"] < l["n"] < last["n_ret"]]
+                dates = sorted(set((T(l["start"]), T(l["finish"])) for l in e))
+                if len(dates) != 1:
+                    oc.bad("comm-not-completed", "%s: expected the completion of one communication, got %r" % (where, e))
+                    break
+                start, finish = dates[0]
+                obs, date = finish - start, finish
+                info = model.comm_time(plat, a["src"], a["dst"], a["size"], model=case["model"], crosstraffic=case.get("crosstraffic"),
+                                       gamma=case.get("gamma"), loopback=case.get("loopback"))
+                expected = info["times"]
+                what = ("%d bytes %s->%s, %s, crosstraffic=%r, gamma=%r; route latency %r, bottleneck %r B/s (%s), window %r B/s"
+                        % (a["size"], a["src"], a["dst"], case["model"], case.get("crosstraffic"), case.get("gamma"), info["lat"], info["phys"],
+                           info["binding"], info["window"]))
+                labels.add("binding:" + info["binding"])
+                if info["gamma_limited"]:
+                    labels.add("gamma-limited")
+                if info["gamma_ambiguous"]:
+                    labels.add("ambiguous:gamma-with-bw-factor")
+                if info["factor_boundary"]:
+                    labels.add("ambiguous:factor-boundary-size")
+                if a["size"] == 0:
+                    labels.add("size-0")
+                if a["src"] != a["dst"]:
+                    r, rb = plat.route(a["src"], a["dst"]), plat.route(a["dst"], a["src"])
+                    labels.add("route-len-%s" % ("1" if len(r) == 1 else "2-3" if len(r) <= 3 else "4-8"))
+                    if any(plat.links[l]["policy"] == "FATPIPE" for l in r):
+                        labels.add("route-has-fatpipe")
+                    if any(l.endswith("_UP") or l.endswith("_DOWN") for l in r):
+                        labels.add("route-has-splitduplex")
+                    if sorted(r) != sorted(rb):
+                        labels.add("reverse-route-differs")
+                if info["crosstraffic_binding"]:
+                    labels.add("crosstraffic-binding")
+                if (info["gamma_limited"] or info["crosstraffic_binding"] or info["factor_boundary"]) and min(expected) > 1e-8:
+                    nontrivial = True
+            if min(expected) <= 1e-8:
+                labels.add("sub-precision")
+            if date - obs > 0:
+                labels.add("start>0")
+            observed.append([kind, obs, expected])
+            if not any(model.close(obs, e, date=date) for e in expected):
+                sig = "duration-differs:" + kind
+                if kind == "comm":
+                    sig += ":" + case["model"]
+                oc.bad(sig, "%s = %s: observed duration %r, documented %r (relative difference %.3g)"
+                       % (where, what, obs, expected, min(abs(obs - e) / max(e, 1e-300) for e in expected)))
+                break
+        oc.labels = sorted(labels)
         oc.nontrivial = bool(nontrivial)
-        oc.info = {"observed": obs, "expected": expected}
+        oc.info = {"observed": observed[:6]}
         return oc
 
 
